@@ -215,6 +215,8 @@ def strat_pdf(tier):
         'weights': st.sampled_from(['none', 'equal', 'unequal', 'with-zero']),
         'xshape': st.sampled_from(['scalar', '1d', '2d', '2d-one-row']),
         'npts': st.integers(1, 6), 'spread': st.sampled_from([0.5, 3.0, 30.0]),
+        # further evaluations after the covariance changed: the SAME array object updated in place, or fresh objects
+        'again': st.sampled_from(['no', 'no', 'in-place', 'fresh']),
     })
 
 
@@ -267,12 +269,29 @@ def run_pdf(case):
             x = pts; ref_pts = pts; shape = (n,)
         else:
             x = pts[:1]; ref_pts = pts[:1]; shape = (1,)
+    labels = ['d=%d' % d, 'cov=' + case['cov_kind'], 'x=' + xs, 'w=' + case['weights']]
+    _pdf_once(case, d, K, means, cov, w, x, ref_pts, shape, '')
+    again = case.get('again', 'no')
+    if again != 'no' and cov is not None:
+        for rnd, f in enumerate((4.0, 0.3, 2.5)):
+            if again == 'in-place' and np.ndim(cov) == 2:
+                cov *= f                       # the caller's array object, updated in place
+            else:
+                cov = cov * f                  # a fresh object (the previous one is released)
+            _pdf_once(case, d, K, means, cov, w, x, ref_pts, shape, ' [evaluation %d after the covariance was changed %s]' % (rnd + 2, again))
+        labels.append('covariance-changed-' + again)
+    nontrivial = True if (K >= 3 and case['weights'] in ('unequal', 'with-zero')) else None
+    return CaseResult(labels, nontrivial)
+
+
+def _pdf_once(case, d, K, means, cov, w, x, ref_pts, shape, note):
+    from elfi.methods.utils import GMDistribution
     kw = {}
     if cov is not None:
         kw['cov'] = cov
     if w is not None:
         kw['weights'] = w
-    with must_not_raise(P, 'GMDistribution.pdf/logpdf (d=%d K=%d x shape %s)' % (d, K, np.shape(x))):
+    with must_not_raise(P, 'GMDistribution.pdf/logpdf (d=%d K=%d x shape %s)%s' % (d, K, np.shape(x), note)):
         pdf = GMDistribution.pdf(x, means, **kw)
         with np.errstate(divide='ignore'):
             logpdf = GMDistribution.logpdf(x, means, **kw)
@@ -288,8 +307,8 @@ def run_pdf(case):
                         % (np.shape(x), d, K, np.shape(pdf), shape))
     got = np.reshape(pdf, -1)
     if not np.allclose(got, ref, rtol=1e-9, atol=1e-300):
-        raise Violation('C13:gm-pdf', 'GMDistribution.pdf = %r but the weighted sum of component densities is %r (d=%d K=%d cov=%s weights=%s seed=%d)'
-                        % (got.tolist(), ref.tolist(), d, K, case['cov_kind'], case['weights'], case['data_seed']))
+        raise Violation('C13:gm-pdf', 'GMDistribution.pdf = %r but the weighted sum of component densities is %r (d=%d K=%d cov=%s weights=%s seed=%d)%s'
+                        % (got.tolist(), ref.tolist(), d, K, case['cov_kind'], case['weights'], case['data_seed'], note))
     with np.errstate(divide='ignore'):
         reflog = np.log(ref)
     gl = np.reshape(logpdf, -1)
@@ -297,10 +316,7 @@ def run_pdf(case):
         raise Violation('C13:gm-logpdf-shape', 'logpdf shape %r, expected %r' % (np.shape(logpdf), shape))
     fin = np.isfinite(reflog)
     if not (np.array_equal(np.isfinite(gl), fin) and np.allclose(gl[fin], reflog[fin], rtol=1e-9, atol=1e-9)):
-        raise Violation('C13:gm-logpdf', 'GMDistribution.logpdf = %r but log of the mixture density is %r' % (gl.tolist(), reflog.tolist()))
-    labels = ['d=%d' % d, 'cov=' + case['cov_kind'], 'x=' + xs, 'w=' + case['weights']]
-    nontrivial = True if (K >= 3 and case['weights'] in ('unequal', 'with-zero')) else None
-    return CaseResult(labels, nontrivial)
+        raise Violation('C13:gm-logpdf', 'GMDistribution.logpdf = %r but log of the mixture density is %r%s' % (gl.tolist(), reflog.tolist(), note))
 
 
 # ------------------------------------------------------------------ constrained sampler
